@@ -777,7 +777,83 @@ def run_share_scope(ctx, i, rng):
       ctx.check(exact(m.apply(v, x), y), 'init_apply_agree:output', lambda: dict(case=desc))
 
 
+def run_write_first(ctx, i, rng):
+  """Modules whose FIRST access to a mutable collection in a call is a write (put_variable / assignment through a stored Variable
+  handle is a read-then-write; a bare put_variable is not): re-applying init's variables creates, drops and re-initialises nothing -
+  the other variables of that module, of its siblings and of its parent keep the supplied values."""
+  import jax
+  import jax.numpy as jnp
+  import flax.linen as nn
+  depth = 1 + i % 3                      # nesting depth of the writing module below the root
+  who = ['first_child', 'last_child', 'both'][(i // 3) % 3]
+  parent_touches_first = (i // 9) % 2 == 1   # the parent reads its own 'state' entry before the children run
+  calls = 1 + (i // 18) % 2
+  desc = dict(depth=depth, writers=who, parent_reads_first=parent_touches_first, calls_per_apply=calls)
+  inits = []
+  with ctx.case('write_first', i, desc, nontrivial=True):
+    class Leaf(nn.Module):
+      writes: bool
+
+      @nn.compact
+      def __call__(self, x):
+        if self.is_initializing():
+          self.variable('state', 'n', lambda: (inits.append('n'), jnp.zeros(()))[1])
+          self.variable('state', 'keep', lambda: (inits.append('keep'), jnp.asarray(7.0))[1])
+        elif self.writes and self.is_mutable_collection('state'):
+          self.put_variable('state', 'n', jnp.sum(x))        # the first access of this scope to 'state' is a write
+        k = self.param('k', lambda key: jnp.asarray(2.0))   # (param initialisers are evaluated abstractly at apply for the shape check)
+        return x * k + self.get_variable('state', 'keep')
+
+    class Mid(nn.Module):
+      level: int
+
+      @nn.compact
+      def __call__(self, x):
+        own = self.variable('state', 'own', lambda: (inits.append('own'), jnp.asarray(0.5))[1])
+        if parent_touches_first:
+          x = x + own.value
+        if self.level > 1:
+          x = Mid(self.level - 1, name='mid')(x)
+        else:
+          for _ in range(calls):
+            x = Leaf(who in ('first_child', 'both'), name='a')(x) if _ == 0 else x
+          x = Leaf(who in ('last_child', 'both'), name='b')(x)
+        return x + own.value
+
+    top = Mid(depth)
+    x0 = jnp.asarray([1.0, 2.0])
+    v = top.init(jax.random.key(0), x0)
+    # supplied variables differ from what the initialisers produce: a re-initialisation is visible in values
+    v = jax.tree_util.tree_map(lambda a: a + 0.25, v)
+    n_init = len(inits)
+    x1 = jnp.asarray([3.0, -1.0])
+    y, upd = top.apply(v, x1, mutable=['state'])
+    ctx.op('apply(first access to a mutable collection is put_variable)')
+    ctx.check(len(inits) == n_init, 'reapply:initialiser_ran_during_apply', lambda: dict(case=desc, ran=inits[n_init:]))
+    flat_v = {k_: np.asarray(a) for k_, a in jax.tree_util.tree_flatten_with_path(v['state'])[0]}
+    flat_u = {k_: np.asarray(a) for k_, a in jax.tree_util.tree_flatten_with_path(dict(upd)['state'])[0]}
+    ctx.check(set(map(str, flat_v)) == set(map(str, flat_u)), 'reapply:variable_created_or_dropped',
+              lambda: dict(case=desc, before=sorted(map(str, flat_v)), after=sorted(map(str, flat_u))))
+    changed = [str(k_) for k_ in flat_v if str(k_) in set(map(str, flat_u)) and not str(k_).endswith("key='n'),)") and not str(k_).endswith("key='n'))")
+               and not np.array_equal(flat_v[k_], {str(a): b for a, b in flat_u.items()}[str(k_)])]
+    ctx.check(not changed, 'reapply:untouched_variable_changed', lambda: dict(case=desc, changed=changed))
+    # reference output computed by hand from the supplied values
+    keep, kk, own = 7.25, 2.25, 0.75
+    h = np.asarray(x1, np.float64)
+    for _ in range(depth):
+      if parent_touches_first:
+        h = h + own
+    h = h * kk + keep      # leaf a
+    h = h * kk + keep      # leaf b
+    for _ in range(depth):
+      h = h + own
+    ctx.check(np.allclose(np.asarray(y), h, rtol=1e-5, atol=1e-5), 'reapply:output_not_from_supplied_variables',
+              lambda: dict(case=desc, got=np.asarray(y).tolist(), want=h.tolist()))
+
+
 def run(ctx):
+  for i in ctx.indices(36 if ctx.tier == 'quick' else 72, 'write_first'):
+    run_write_first(ctx, i, ctx.rng('write_first', i))
   for i in ctx.indices(12 if ctx.tier == 'quick' else 90, 'share_scope'):
     run_share_scope(ctx, i, ctx.rng('share', i))
   for i in ctx.indices(24 if ctx.tier == 'quick' else 200, 'reentrant'):
